@@ -15,9 +15,27 @@ pub fn cmp() -> BoxedStrategy<Cmp> {
 }
 
 /// boundary-rich u32 counts
+/// powers of two and of ten with their neighbours, and the unit sizes of time: where narrowing,
+/// shifting, digit-count limits and unit conversion go wrong
+pub fn special_numbers() -> Vec<u64> {
+    let mut v: Vec<u64> = vec![0, 3, 7, 59, 60, 61, 100, 1439, 1440, 1441, 3599, 3600, 3601, 86399, 86400, 86401, 604800, u64::MAX - 1, u64::MAX];
+    for k in 0..64u32 {
+        let p = 1u64 << k;
+        v.extend([p - 1, p, p.saturating_add(1)]);
+    }
+    for k in 0..20u32 {
+        let p = 10u64.pow(k);
+        v.extend([p - 1, p, p + 1]);
+    }
+    v.sort();
+    v.dedup();
+    v
+}
+
 pub fn count_u32() -> BoxedStrategy<u32> {
     prop_oneof![
         4 => prop::sample::select(vec![0u32, 1, 2, 3, 7, 59, 60, 61, 100, 1000, 1023, 1024, 1025, 65535, 65536]),
+        2 => prop::sample::select(special_numbers().into_iter().filter(|v| *v <= u32::MAX as u64).map(|v| v as u32).collect::<Vec<_>>()),
         2 => 0u32..50,
         1 => prop::sample::select(vec![(1u32 << 31) - 1, 1 << 31, (1 << 31) + 1, u32::MAX - 1, u32::MAX]),
         1 => any::<u32>(),
@@ -30,8 +48,11 @@ pub fn count_u64(max: u64) -> BoxedStrategy<u64> {
     let mut specials: Vec<u64> =
         vec![0, 1, 2, 3, 7, 59, 60, 61, 1023, 1024, 1025, (1 << 31) - 1, 1 << 31, (1 << 32) - 1, 1 << 32, (1 << 32) + 1, (1u64 << 63) - 1, 1 << 63, u64::MAX - 1, u64::MAX, max.saturating_sub(1), max];
     specials.retain(|v| *v <= max);
+    let mut wide = special_numbers();
+    wide.retain(|v| *v <= max);
     prop_oneof![
         4 => prop::sample::select(specials),
+        2 => prop::sample::select(wide),
         3 => 0u64..50.min(max).max(1),
         1 => (0u64..=max),
     ]
@@ -49,7 +70,10 @@ pub fn which() -> BoxedStrategy<Which> {
 }
 
 /// Small pools of names so that repeats, case twins and pattern/literal pairs occur.
-pub const NAME_POOL: [&str; 32] = [
+pub const NAME_POOL: [&str; 40] = [
+    // wildcards only: always true, or true from a minimal length on
+    "*??", "??*", "?*?", "*???", "**", "?*", "*?", "???",
+
     "a", "b", "A", "foo", "Foo", "FOO", "foo*", "*.c", "*.C", "f?o", "[ab]", "[a-c]x", "x", "x*", "data.bin", "DATA.BIN", "a.b", "*", "?", "[!a]*", "dir/sub", "dir/*", "*/x", "héllo",
     // no ASCII letter at all (case folding must not depend on ASCII letters)
     "МОСКВА", "москва", "ÀÉÎ*", "àéî*", "123", "*.[0-9]", "_-.", "日本",
@@ -279,6 +303,10 @@ pub fn unsupported_test() -> BoxedStrategy<Tst> {
 pub fn file_name() -> BoxedStrategy<String> {
     prop_oneof![
         8 => prop::sample::select(vec!["a", "b", "c", "out.txt"]).prop_map(|s| s.to_string()),
+        // other spellings of the same paths: still different destinations as far as the program goes
+        1 => prop::sample::select(vec!["./a", "a/", "a/.", "./out.txt", "b//", "./b", "c/../a", "A"]).prop_map(|s| s.to_string()),
+        // names a shell would expand: the library is not a shell
+        1 => prop::sample::select(vec!["~/a", "~", "~root/a", "$HOME/a", "${HOME}/a", "$PWD/a", "*.out", "a?", "{a,b}", "`a`", "$(a)"]).prop_map(|s| s.to_string()),
         // special files and path-like tokens from the sources under test
         1 => prop::sample::select(crate::dict::paths()),
     ]
@@ -304,21 +332,49 @@ pub fn unsupported_action() -> BoxedStrategy<Act> {
 }
 
 /// Operator trees over the given leaf strategy. `list` enables the ',' operator.
+/// Shapes an optimiser would like to simplify: the same subtree twice, a subtree next to its
+/// negation, double negation, constant operands. Evaluation order, short-circuiting and the side
+/// effects of actions make most such simplifications wrong somewhere.
+fn redundant(t: E, k: u8) -> E {
+    let tt = || E::T(Tst::True);
+    let ff = || E::T(Tst::False);
+    match k % 16 {
+        0 => E::and(t.clone(), t),
+        1 => E::or(t.clone(), t),
+        2 => E::and(t.clone(), E::not(t)),
+        3 => E::or(E::not(t.clone()), t),
+        4 => E::not(E::not(t)),
+        5 => E::and(tt(), t),
+        6 => E::and(t, tt()),
+        7 => E::or(ff(), t),
+        8 => E::or(t, ff()),
+        9 => E::and(ff(), t),
+        10 => E::or(tt(), t),
+        11 => E::and(t, ff()),
+        12 => E::or(t, tt()),
+        13 => E::not(E::not(E::not(t))),
+        14 => E::or(E::and(t.clone(), ff()), t),
+        _ => E::and(E::or(t.clone(), tt()), t),
+    }
+}
+
 pub fn expr_over(leaf: BoxedStrategy<E>, depth: u32, size: u32, list: bool) -> BoxedStrategy<E> {
     leaf.prop_recursive(depth, size, 2, move |inner| {
         if list {
             prop_oneof![
-                2 => inner.clone().prop_map(E::not),
-                4 => (inner.clone(), inner.clone()).prop_map(|(a, b)| E::and(a, b)),
-                3 => (inner.clone(), inner.clone()).prop_map(|(a, b)| E::or(a, b)),
-                1 => (inner.clone(), inner.clone()).prop_map(|(a, b)| E::list(a, b)),
+                4 => inner.clone().prop_map(E::not),
+                8 => (inner.clone(), inner.clone()).prop_map(|(a, b)| E::and(a, b)),
+                6 => (inner.clone(), inner.clone()).prop_map(|(a, b)| E::or(a, b)),
+                2 => (inner.clone(), inner.clone()).prop_map(|(a, b)| E::list(a, b)),
+                1 => (inner.clone(), any::<u8>()).prop_map(|(a, k)| if k % 17 == 16 { E::list(a.clone(), a) } else { redundant(a, k) }),
             ]
             .boxed()
         } else {
             prop_oneof![
-                2 => inner.clone().prop_map(E::not),
-                4 => (inner.clone(), inner.clone()).prop_map(|(a, b)| E::and(a, b)),
-                3 => (inner.clone(), inner.clone()).prop_map(|(a, b)| E::or(a, b)),
+                4 => inner.clone().prop_map(E::not),
+                8 => (inner.clone(), inner.clone()).prop_map(|(a, b)| E::and(a, b)),
+                6 => (inner.clone(), inner.clone()).prop_map(|(a, b)| E::or(a, b)),
+                1 => (inner.clone(), any::<u8>()).prop_map(|(a, k)| redundant(a, k)),
             ]
             .boxed()
         }
@@ -343,6 +399,10 @@ pub fn text_string() -> BoxedStrategy<String> {
     prop_oneof![
         4 => user_string(StrKind::Name),
         2 => user_string(StrKind::Ident),
+        // numerals of other scripts, digits that are not ASCII digits (a word is never a number because Unicode says so)
+        1 => prop::sample::select(vec!["42", "0", "٣٤", "²", "½", "Ⅷ", "１２", "७", "1e3", "0x1f", "+5", "-5"]).prop_map(|s| s.to_string()),
+        // case mappings that change the length or need context (an argument is never case-mapped by the parser)
+        1 => prop::sample::select(vec!["İstanbul", "Straße", "STRASSE", "ǅ", "ſ", "ΣΑΣ", "ﬁn"]).prop_map(|s| s.to_string()),
         2 => prop::sample::select(vec!["a b", "x)y", "it's", "say \"hi\"", "(", ")", "-print", "-o", "!", ",", "a\tb", "two  blanks", "a\nb", "'", "\"", "é x", "-", "%", "a(b", "$HOME", "~", ";#"]).prop_map(|s| s.to_string()),
         // the same words with different blanks inside (a cache keyed on collapsed blanks would confuse them)
         1 => prop::sample::select(vec!["a  b", "a   b", "a \tb", "two blanks", "two\tblanks", "a\n\nb", " a b", "a b "]).prop_map(|s| s.to_string()),
